@@ -34,6 +34,7 @@ import vlib
 
 PKG = "internal/home"
 FILES = ["zz_verif_common_test.go", "zz_verif_g09_test.go"]
+SHIM = "internal/querylog/zz_verif_g09_shim.go"
 
 KINDS = {"client_add", "client_update", "client_delete", "access_set", "set_rules", "rewrite_add",
          "rewrite_delete", "blocked_services", "protection", "filtering", "qlog_config", "stats_config",
@@ -165,6 +166,9 @@ class Crash(Exception):
 
 def build_binary(ctx):
     overlay = {os.path.join(vlib.REPO, PKG, f): os.path.join(vlib.HARNESS, PKG, f) for f in FILES}
+    # A non-test shim in package querylog: "is a flush of the memory buffer in
+    # progress" for the systems booted with a small buffer (no behaviour changes).
+    overlay[os.path.join(vlib.REPO, SHIM)] = os.path.join(vlib.HARNESS, SHIM)
     ov = ctx.path("g09_overlay.json")
     with open(ov, "w") as fh:
         json.dump({"Replace": overlay}, fh)
@@ -204,17 +208,24 @@ def run_go(ctx, binary, test, tag, env, timeout):
     return outp, rows
 
 
-def run_scripts(ctx, binary, hists, tag, dropwait=400, rulewait=3000, timeout=600):
+def memsize(p):
+    """Every second system is booted with a memory buffer of 6 entries, so that
+    the log it serves comes from the file and from memory."""
+    return 6 if p % 2 == 1 else 1000
+
+
+def run_scripts(ctx, binary, hists, tag, dropwait=400, rulewait=3000, timeout=600, mem=1000):
     inp = ctx.path("hist_%s.ndjson" % tag)
     vlib.write_ndjson(inp, hists)
     return run_go(ctx, binary, "TestZZVerifG09Run", tag,
-                  {"VERIF_IN": inp, "VERIF_G09_DROPWAIT": dropwait, "VERIF_G09_RULEWAIT": rulewait}, timeout)
+                  {"VERIF_IN": inp, "VERIF_G09_DROPWAIT": dropwait, "VERIF_G09_RULEWAIT": rulewait,
+                   "VERIF_G09_MEMSIZE": mem}, timeout)
 
 
-def run_random(ctx, binary, tag, first_h, n_hist, steps, timeout=600):
+def run_random(ctx, binary, tag, first_h, n_hist, steps, timeout=600, mem=1000):
     return run_go(ctx, binary, "TestZZVerifG09Random", tag,
                   {"VERIF_G09_HISTS": n_hist, "VERIF_G09_STEPS": steps, "VERIF_G09_FIRSTH": first_h,
-                   "VERIF_G09_DROPWAIT": 400}, timeout)
+                   "VERIF_G09_DROPWAIT": 400, "VERIF_G09_MEMSIZE": mem}, timeout)
 
 
 def parallel(jobs, width):
@@ -272,7 +283,7 @@ def is_fresh(rows, h):
     return not any(r["h"] == h and r["op"]["k"] == "reset" for r in rows)
 
 
-def confirm(ctx, binary, kind, tag, rows, bad):
+def confirm(ctx, binary, kind, tag, rows, bad, mem=1000):
     """Replays the history of a rejected line on a freshly booted system, with
     longer time-outs; if it is accepted there, replays everything the process
     had done before it as well.  Returns (record or None, how)."""
@@ -286,13 +297,13 @@ def confirm(ctx, binary, kind, tag, rows, bad):
     for how, hists in (("alone", short), ("with-predecessors", long)):
         if how == "with-predecessors" and len(long) == 1:
             break
-        p2, rows2 = run_scripts(ctx, binary, hists, "%s_confirm_%s_%d" % (tag, how[:5], h), dropwait=1200, rulewait=8000)
+        p2, rows2 = run_scripts(ctx, binary, hists, "%s_confirm_%s_%d" % (tag, how[:5], h), dropwait=1200, rulewait=8000, mem=mem)
         bad2 = [b for b in validate(ctx, p2, len(rows2)) if b["h"] == h]
         if bad2 and bad2[0]["i"] == i and set(bad2[0]["why"]) & set(bad["why"]):
             line = next(r for r in rows2 if r["h"] == h and r["i"] == i)
             return {"kind": kind, "seed": ctx.seed, "tier": ctx.tier, "h": h, "i": i, "why": bad2[0]["why"],
                     "op": line["op"], "observed": line["obs"], "expected": bad2[0]["exp"], "replayed": how,
-                    "histories": hists}, how
+                    "memsize": mem, "histories": hists}, how
     return None, "not reproduced"
 
 
@@ -392,8 +403,8 @@ def run(ctx):
 
     jobs = []
     for p in range(procs):
-        jobs.append((("A", p), (lambda p=p: run_scripts(ctx, binary, plans[p], "A%d" % p, timeout=900))))
-        jobs.append((("B", p), (lambda p=p: run_random(ctx, binary, "B%d" % p, 1000 * (p + 1), b_hists, b_len, timeout=900))))
+        jobs.append((("A", p), (lambda p=p: run_scripts(ctx, binary, plans[p], "A%d" % p, timeout=900, mem=memsize(p)))))
+        jobs.append((("B", p), (lambda p=p: run_random(ctx, binary, "B%d" % p, 1000 * (p + 1), b_hists, b_len, timeout=900, mem=memsize(p + 1)))))
     try:
         traces = parallel(jobs, 4)
     except Crash as c:
@@ -409,7 +420,9 @@ def run(ctx):
     for k in sorted(verdicts):
         for b in verdicts[k][:6]:
             nbad += 1
-            rec, how = confirm(ctx, binary, k[0], "%s%d" % k, traces[k][1], b)
+            if len(confirmed) + len(flaky) >= 10:
+                continue              # a broken tree: the rest is only counted
+            rec, how = confirm(ctx, binary, k[0], "%s%d" % k, traces[k][1], b, mem=memsize(k[1] + (1 if k[0] == "B" else 0)))
             if rec is None:
                 flaky.append({"trace": "%s%d" % k, "h": b["h"], "i": b["i"], "why": b["why"]})
                 continue
@@ -484,7 +497,7 @@ def replay(ctx, path):
         print("a crash is replayed by running the check again with VERIF_SEED=%d (%s tier)" % (rec["seed"], rec["tier"]))
         return 1
     binary = build_binary(ctx)
-    p, rows = run_scripts(ctx, binary, rec["histories"], "replay", dropwait=1200, rulewait=8000)
+    p, rows = run_scripts(ctx, binary, rec["histories"], "replay", dropwait=1200, rulewait=8000, mem=rec.get("memsize", 1000))
     bad = [b for b in validate(ctx, p, len(rows)) if b["h"] == rec["h"]]
     hit = bool(bad) and bad[0]["i"] == rec["i"]
     line = next((r for r in rows if r["h"] == rec["h"] and r["i"] == rec["i"]), None)
